@@ -16,6 +16,7 @@ import (
 	"github.com/deepteams/webp"
 	"github.com/deepteams/webp/animation"
 	"github.com/deepteams/webp/internal/dsp"
+	"github.com/deepteams/webp/internal/lossy"
 	"github.com/deepteams/webp/verifx/vx"
 )
 
@@ -219,6 +220,49 @@ func c13Cases(seed int64, thorough bool) []c13Case {
 		}
 		return fmt.Sprintf("%x", h)
 	}})
+	// quantisation with the parameter combinations the encoder's matrices can take: every AC step 4..284 (and the DC
+	// steps), the four rounding biases of the format's bias matrices, sharpening as derived from the step, and every
+	// magnitude up to 320 (the zero/one decision boundaries of every step lie there) plus large ones, both signs
+	cs = append(cs, c13Case{"kernel:QuantizeCoeffs+DequantCoeffs (step x bias x magnitude sweep)", func() string {
+		h := uint64(0)
+		freqSharpen := [16]int{0, 30, 60, 90, 30, 60, 90, 90, 60, 90, 90, 90, 90, 90, 90, 90}
+		for step := 4; step <= 284; step++ {
+			for _, biasByte := range []int{96, 108, 110, 115} {
+				sq := lossy.SegmentQuant{Quant: step, IQuant: (1 << 17) / step, Bias: biasByte << 9,
+					DCQuant: 4 + step/2, DCIQuant: (1 << 17) / (4 + step/2), DCBias: 96 << 9}
+				sq.Zthresh = ((1 << 17) - 1 - sq.Bias) / sq.IQuant
+				sq.DCZthresh = ((1 << 17) - 1 - sq.DCBias) / sq.DCIQuant
+				if biasByte == 110 { // the luma matrix is the one with frequency sharpening
+					for i := range sq.Sharpen {
+						sq.Sharpen[i] = int16(freqSharpen[i] * step >> 11)
+					}
+				}
+				for base := 0; base <= 320; base += 15 {
+					var in, out, deq [16]int16
+					for k := 1; k < 16; k++ {
+						v := base + k - 1
+						if (base/15+k)%2 == 0 {
+							v = -v
+						}
+						in[k] = int16(v)
+					}
+					in[0] = int16(base*3 - 400)
+					if base == 315 {
+						for k := range in {
+							in[k] = int16([]int{2047, -2048, 1500, -1999, 700, 32767 / 17}[k%6])
+						}
+					}
+					nz := lossy.QuantizeCoeffs(in[:], out[:], &sq, step%2)
+					lossy.DequantCoeffs(out[:], deq[:], &sq)
+					h = h*1099511628211 ^ uint64(nz+1)
+					for k := range out {
+						h = h*31 + uint64(uint16(out[k]))*7 + uint64(uint16(deq[k]))
+					}
+				}
+			}
+		}
+		return fmt.Sprintf("%x", h)
+	}})
 	// ---- pipeline level ----
 	enc := func(name string, img image.Image, o webp.EncoderOptions) {
 		cs = append(cs, c13Case{"Encode+Decode:" + name, func() string {
@@ -243,6 +287,27 @@ func c13Cases(seed int64, thorough bool) []c13Case {
 		"wide-alpha-4200x6": gradientAlpha(rng, 4200, 6), // wider than any SIMD tile/scratch buffer of the upsampler
 		"tiny-1x1":          noiseNRGBA(rng, 1, 1, 2),
 		"odd-17x3":          noiseNRGBA(rng, 17, 3, 2),
+	}
+	// every quantiser index: a quality sweep in steps of one on busy pictures (the quantisation kernels' rounding
+	// boundaries depend on the exact step size; segments off, so the whole picture uses the one index)
+	for q := 0; q <= 100; q++ {
+		o := *webp.DefaultOptions()
+		o.Quality, o.Method, o.Segments, o.SNSStrength = float32(q), []int{0, 3, 5}[q%3], 1, 0
+		enc(fmt.Sprintf("noise-64x48 lossy q%d m%d one-segment (quality sweep)", q, o.Method), pics["noise-64x48"], o)
+		if !thorough && q%2 == 1 {
+			continue
+		}
+		o.SNSStrength = 100 // the strongest frequency sharpening
+		enc(fmt.Sprintf("graded-97x61 lossy q%d m%d one-segment sns100 (quality sweep)", q, o.Method), pics["graded-97x61"], o)
+	}
+	// the coarse end in quarter steps (there the 101 integer qualities skip quantiser indices)
+	for q4 := 1; q4 < 200; q4++ {
+		if q4%4 == 0 || (!thorough && q4%2 == 0) {
+			continue
+		}
+		o := *webp.DefaultOptions()
+		o.Quality, o.Method, o.Segments, o.SNSStrength = float32(q4)/4, 0, 1, 0
+		enc(fmt.Sprintf("noise-64x48 lossy q%v m0 one-segment (quality sweep)", o.Quality), pics["noise-64x48"], o)
 	}
 	names := []string{"graded-97x61", "noise-64x48", "smooth-130x70", "alpha-75x33", "palette-40x40", "wide-alpha-4200x6", "tiny-1x1", "odd-17x3"}
 	for _, pn := range names {
